@@ -13,7 +13,7 @@ from __future__ import annotations
 import ast
 
 from ..core import AnalysisError, call_name, dotted, is_self_attr, kwarg
-from ..flow import dominating_atoms, enclosing_loops, block_of
+from ..flow import dominating_atoms, enclosing_loops, block_of, enclosing_tests, always_raises
 from .. import coh
 from .. import fields as F
 
@@ -104,6 +104,22 @@ def run(ctx):
                             if any('gateset' in ast.unparse(a) for a, pol in atoms):
                                 gate_ok = True
         ctx.ob('C07.a', key + ':gateset-test', gate_ok, '' if gate_ok else 'validator does not reject operations outside the device gateset', ci.mod.rel, fn.lineno)
+        # no bypass: the gateset test is evaluated for every operation (not skipped under a memo / earlier condition)
+        parents_ = ci.mod.parents()
+        for r, atoms, loops in rcs:
+            enc = enclosing_tests(parents_, r, fn)
+            gs = [(t, pol, owner) for t, pol, owner in enc if ('gateset' in ast.unparse(t) or 'is_api_gate' in ast.unparse(t) or 'is_pasqal_device_op' in ast.unparse(t))]
+            if not gs:
+                continue
+            others = [(t, pol, owner) for t, pol, owner in enc if (t, pol, owner) not in gs]
+            bypass = []
+            for t, pol, owner in others:
+                other_branch = owner.orelse if pol else owner.body
+                if not (other_branch and always_raises(other_branch)):
+                    bypass.append(ast.unparse(t) if pol else f'not ({ast.unparse(t)})')
+            ctx.ob('C07.a', key + ':gateset-test:every-operation', not bypass,
+                   '' if not bypass else f'the gateset membership test only runs when `{bypass[0]}`: operations for which that is false are accepted without being looked up in the gateset',
+                   ci.mod.rel, r.lineno)
         # qubits
         quants = []
         for r, atoms, loops in rcs:
@@ -197,6 +213,33 @@ def run(ctx):
                 ctx.ob('C07.b', f'{rc.qual}._route:swap-same-pair', okp, '' if okp else 'the pair applied to the mapping is not the pair of the emitted SWAP', rc.mod.rel, c.lineno)
     if n2 == 0:
         raise AnalysisError('RouteCQC._route: two-qubit append site not recognised')
+    # reported final mapping covers every mapped qubit (spectators included)
+    rcf = repo.method(rc.qual, 'route_circuit')
+    rets = [r for r in ast.walk(rcf) if isinstance(r, ast.Return) and isinstance(r.value, ast.Tuple) and len(r.value.elts) == 3]
+    if not rets:
+        raise AnalysisError('RouteCQC.route_circuit: 3-tuple return vanished')
+    third = rets[0].value.elts[2]
+    env = {}
+    for n in ast.walk(rcf):
+        if isinstance(n, ast.Assign) and isinstance(n.targets[0], ast.Name):
+            env[n.targets[0].id] = n.value
+    def iter_sources(e, depth=0):
+        out = []
+        for x in ast.walk(e):
+            if isinstance(x, ast.comprehension):
+                out.append(ast.unparse(x.iter))
+                for nm in ast.walk(x.iter):
+                    if isinstance(nm, ast.Name) and nm.id in env and depth < 3:
+                        out += iter_sources(env[nm.id], depth + 1)
+        if isinstance(e, ast.Name) and e.id in env and depth < 3:
+            out += iter_sources(env[e.id], depth + 1)
+        return out
+    srcs = iter_sources(third)
+    ok = any('logical_to_physical' in s_ or 'physical_to_logical' in s_ or s_.startswith('initial_mapping') for s_ in srcs) and \
+        not any('all_qubits' in s_ or s_.startswith('circuit') for s_ in srcs)
+    ctx.ob('C07.b', f'{rc.qual}.route_circuit:final-mapping-covers-all-mapped-qubits', ok,
+           '' if ok else f'the reported qubit permutation is enumerated from {srcs}: logical qubits that are mapped but idle are moved by swaps without being reported',
+           rc.mod.rel, rets[0].lineno)
     mmc = repo.cls('cirq.transformers.routing.mapping_manager.MappingManager')
     asw = repo.method(mmc.qual, 'apply_swap')
     stores = {}
@@ -272,6 +315,45 @@ def run(ctx):
     cfw = [c for c in ast.walk(opt) if isinstance(c, ast.Call) and any(k.arg == 'context' for k in c.keywords)]
     ok = len(cfw) >= 2 and all('context' in {x.id for x in ast.walk(kwarg(c, 'context')) if isinstance(x, ast.Name)} for c in cfw)
     ctx.ob('C07.c', 'optimize:context-forwarded', ok, '' if ok else 'the transformer context (tags_to_ignore, deep) is not forwarded to the pipeline stages', m.rel, opt.lineno)
+
+    # ------------------------------------------------------------------ C07.e
+    ctx.rule('C07.e', 'body-for-operation substitution: a transformer may treat the body (`.circuit`) of a CircuitOperation as standing for '
+             'the operation (expanding it into operations, or handing it to a rewriter as a merged component) only under a test that its '
+             'own intermediate/merged tag is on the operation - otherwise repetitions and maps of a user sub-circuit are ignored', floor=2, style='RG')
+    for m2 in sorted(repo.modules.values(), key=lambda mm_: mm_.rel):
+        if not m2.rel.startswith(('cirq-core/cirq/transformers/', 'cirq-google/cirq_google/transformers/')):
+            continue
+        parents2 = m2.parents()
+        for n in ast.walk(m2.tree):
+            site = None
+            # [*x.circuit] / for _ in x.circuit / flatten(x.circuit) / x.circuit.all_operations()
+            if isinstance(n, ast.Attribute) and n.attr == 'circuit' and 'untagged' in ast.unparse(n.value):
+                par = parents2.get(n)
+                if isinstance(par, ast.Starred):
+                    site = par
+                elif isinstance(par, (ast.For, ast.comprehension)) and par.iter is n:
+                    site = n
+                elif isinstance(par, ast.Attribute) and par.attr in ('all_operations', 'moments', 'unfreeze') and False:
+                    site = n
+            # cast(CircuitOperation, op_untagged) handed to a rewriter as a merged component
+            if isinstance(n, ast.IfExp) and isinstance(n.body, ast.Call) and call_name(n.body) == 'cast' and 'CircuitOperation' in ast.unparse(n.body) \
+                    and isinstance(n.orelse, ast.Call) and 'CircuitOperation' in ast.unparse(n.orelse.func):
+                ok = 'in op.tags' in ast.unparse(n.test) and not isinstance(n.test, ast.UnaryOp)
+                fnn = n
+                while fnn in parents2 and not isinstance(fnn, ast.FunctionDef):
+                    fnn = parents2[fnn]
+                ctx.ob('C07.e', f'{m2.name}.{getattr(fnn, "name", "?")}:merged-component-cast', ok,
+                       '' if ok else 'an arbitrary CircuitOperation is handed to the rewriter as if it were a merged component', m2.rel, n.lineno)
+            if site is not None:
+                fnn = n
+                while fnn in parents2 and not isinstance(fnn, ast.FunctionDef):
+                    fnn = parents2[fnn]
+                atoms = dominating_atoms(parents2, n, fnn if isinstance(fnn, ast.FunctionDef) else None)
+                ok = any(isinstance(a, ast.Compare) and isinstance(a.ops[0], ast.In) and pol and ast.unparse(a.comparators[0]).endswith('.tags')
+                         and 'tag' in ast.unparse(a.left).lower() for a, pol in atoms)
+                ctx.ob('C07.e', f'{m2.name}.{getattr(fnn, "name", "?")}:body-expansion', ok,
+                       '' if ok else f'`{ast.unparse(n)}` is expanded in place of the operation without checking the transformer\'s own tag: for a user '
+                       'sub-circuit with repetitions/maps the result is not equivalent', m2.rel, n.lineno)
 
     # ------------------------------------------------------------------ C07.d
     ctx.rule('C07.d', 'every CompilationTargetGateset subclass: each constructor option stored on self is read outside __init__ and takes part '
